@@ -80,6 +80,8 @@ type Tr struct {
 	relStructs []*types.Named
 	relStructsAll []*types.Named
 	streamUse int
+	stableCallee *ssa.Function
+	havocCallee *ssa.Function
 	privateRegs []*Term
 	typeFactCache map[string]bool
 	curBind   []Val // bindings of the closure currently being called by contract
